@@ -287,7 +287,7 @@ CHECK_DEADLOCK FALSE
 
 # schedule classes the shell leg must have exercised (observed, not assumed), else the run is vacuous
 SHELL_NEED = ["batch:held", "batch:new-then-established:ip", "batch:new-then-established:port", "batch:new-then-established:held",
-              "batch:both-directions", "batch:replies-to-several-clients", "c2b:delivered"]
+              "batch:both-directions", "batch:replies-to-several-clients", "batch:several-replies-to-one-client", "c2b:delivered"]
 
 
 def shell_cfg(wd, name, devs):
